@@ -66,7 +66,7 @@ def body_mef(B, I):
     nlist = k + (ch.pick(I['extra'], 0, 2) if I['mismatch'] else 0) - (0)
     sc_list = [mk_curve(B, j) for j in range(nlist)]
     # request
-    rq = ch.pick(I['rq'], 0, 6)
+    rq = ch.pick(I['rq'], 0, 7)
     r1, r2, r3 = ch.pick(I['r1'], 0, D), ch.pick(I['r2'], 0, D), ch.pick(I['r3'], 0, D)
     rn = I['rname']
     if not as_sample and rn:
@@ -86,8 +86,12 @@ def body_mef(B, I):
         if len({r1, r2, r3}) != 3:
             raise Reject()
         request, req_pos = [r1, spell(r2), r3], [r1, r2, r3]
-    else:
+    elif rq == 5:
         request, req_pos = (spell(r1),), [r1]
+    else:
+        # negative spelling of a position: the column it names must be converted with its own
+        # curve or the request refused - never passed through unconverted
+        request, req_pos = r1 - D, [r1]
     if as_sample:
         vals = [[TermT('x', i, j) if B.kind == 'model' else float(10 * i + j + 1)
                  for j in range(D)] for i in range(2)]
@@ -111,6 +115,16 @@ def body_mef(B, I):
         return (res[0] == 'exc' and res[1] == 'ValueError'), \
             'to_mef: different numbers of curves and channels accepted'
     uncovered = [p for p in req_pos if p not in sc_pos]
+    if rq == 6 and not uncovered and nlist == k:
+        H.mark('negative-position')
+        if res[0] == 'exc':
+            return res[1] == 'ValueError', 'to_mef: negative position raised %s' % res[1]
+        got = B.tolist(res[1])
+        j = req_pos[0]
+        for i in range(2):
+            if not B.close(got[i][j], apply_curve(B, sc_pos.index(j), vals[i][j])):
+                return False, 'to_mef: requested channel passed through unconverted'
+        return True
     if uncovered:
         H.mark('uncovered')
         return (res[0] == 'exc' and res[1] == 'ValueError'), \
@@ -160,12 +174,12 @@ def make_mef(as_sample, rq, bn):
             pre.append('0 <= extra <= 1')
             consts.pop('mismatch')
             consts.pop('extra')
-        nr = {0: 0, 1: 1, 2: 1, 3: 2, 4: 3, 5: 1}[rq]
+        nr = {0: 0, 1: 1, 2: 1, 3: 2, 4: 3, 5: 1, 6: 1}[rq]
         for nm in ('r1', 'r2', 'r3')[:nr]:
             params.append((nm, 'int'))
             pre.append('0 <= %s <= 3' % nm)
             consts.pop(nm)
-        if nr and as_sample:
+        if nr and as_sample and rq != 6:
             params.append(('rname', 'bool'))
             consts.pop('rname')
         return cond_fn('to_mef', params, body_mef, pre=pre, consts=consts)
@@ -177,12 +191,12 @@ def conditions(tier):
     mods = ('plot', 'io', 'transform')
     cs = []
     for as_sample, bn in ((True, 0), (True, 1), (True, 2), (False, 0)):
-        for rq in range(6):
+        for rq in range(7):
             cs.append(Cond('to_mef_%s_sc%s_rq%d' % ('sample' if as_sample else 'array',
                                                     ('pos', 'names', 'mixed')[bn], rq),
                            make=make_mef(as_sample, rq, bn), replay=std_replay(body_mef),
                            timeout=600 if q else 1800, modules=mods,
-                           doc='request form %d (None,int/name,[one],[two],[three],(tuple)): '
+                           doc='request form %d (None,int/name,[one],[two],[three],(tuple),negative position): '
                                'requested and covered cells == sc_pi(c)(x), others identical, '
                                'metadata, range; uncovered request or unequal lengths -> '
                                'ValueError' % rq))
